@@ -421,7 +421,15 @@ def handleEedist (args res : List String) : String :=
         let isClosest (c : Option String) : Bool := match c with
           | some t => t.startsWith "ee-closest-dist" || t.startsWith "ee-closest-onedge" || t.startsWith "ee-closest-zero"
           | none => false
-        if anyNearPole && all.any isClosest then
+        -- KNOWN class D38 through EdgePairClosestPoints: BOTH edges within 2^-20 rad of antipodal and crossing: the crossing branch
+        -- returns `Intersection`, which is the ANTIPODE of the true crossing there (same criterion as clause hemi-antipodal of C16)
+        let nearAnti (U V : IV3) : Bool := decide (inorm2 (U.add V) * 2 ^ 40 < inorm2 U)
+        let isCrossCl (c : Option String) : Bool := match c with
+          | some t => t.startsWith "ee-closest-cross" || t.startsWith "ee-closest-onedge" || t.startsWith "ee-closest-dist"
+          | none => false
+        if cs == "0" && nearAnti A0 A1 && nearAnti B0 B1 && all.any isCrossCl then
+          firstSome ((all.filter (fun c => !isCrossCl c)) ++ [some "ee-closest-antipodal-edges"])
+        else if anyNearPole && all.any isClosest then
           firstSome ((all.filter (fun c => !isClosest c)) ++ [some "ee-closest-nearpole"])
         else firstSome all
       verdictC model res prop
